@@ -313,7 +313,19 @@ def run_fit(spec, want_abs):
         search.paths.remove_files = False
         try:
             if route == "fit":
-                search.fit(model=model, analysis=Analysis())
+                import signal
+
+                def _alarm(*_):
+                    raise TimeoutError("real fit exceeded its time budget")
+                signal.signal(signal.SIGALRM, _alarm)
+                signal.alarm(int(opts.get("fit_timeout", 90)))
+                try:
+                    search.fit(model=model, analysis=Analysis())
+                except TimeoutError:
+                    out["skipped"] = "timeout"       # the sampler did not finish: nothing to observe
+                    return out
+                finally:
+                    signal.alarm(0)
             else:
                 search.paths.model = model
                 search.paths.unique_tag = search.unique_tag
